@@ -1665,6 +1665,9 @@ class PPTableFormat:
         self.limit_flines, self.limit_llines = limits
         # it is not known any more if some lines will be skipped
         self.any_lines_skipped = None
+        # actual widths were fitted to the records visible with the old limits
+        for col in self.repr_structure.columns:
+            col.width = None
 
     @staticmethod
     def _parse_fmt(fmt):
